@@ -290,6 +290,16 @@ func runClient(rp *reply, invs []invocation.Invocation, service ucan.Principal) 
 		if rdr != nil {
 			guard(obs, "ReceiptReader.Read", func() { rdr.Read(l, resp.Blocks()) })
 		}
+		// the typed readers with bindnode options (converters): no panic; the {who: DID} result reads back as issued
+		who, mismatch := c15TypedReads(obs, l, resp, rc)
+		if rc != nil && mismatch == "" {
+			if want := c15WhoOf(rc); want != "" && who != want {
+				mismatch = fmt.Sprintf("the typed reader (NewReceiptReaderFromTypes with converters) reports who=%q for a receipt whose result is {who: %q}", who, want)
+			}
+		}
+		if mismatch != "" {
+			obs.Panics = append(obs.Panics, "typed-receipt-read: "+mismatch)
+		}
 		if rc == nil {
 			continue
 		}
@@ -386,7 +396,10 @@ func c15Replies(seed int64, tier string) ([]*reply, []invocation.Invocation, uca
 	for i, inv := range invs {
 		var rc receipt.AnyReceipt
 		var err error
-		if i%2 == 0 {
+		if i == 2 {
+			// a result that a typed reader needs a converter for (gen_c15_typed.go)
+			rc, err = receipt.Issue(service.Signer, result.Ok[c15Who, ipld.Builder](c15Who{Who: service.DID}), ran.FromInvocation(inv))
+		} else if i%2 == 0 {
 			rc, err = receipt.Issue(service.Signer, result.Ok[ok.Unit, ipld.Builder](ok.Unit{}), ran.FromInvocation(inv))
 		} else {
 			rc, err = receipt.Issue(service.Signer, result.Ok[ok.Unit, ipld.Builder](ok.Unit{}), ran.FromLink(inv.Link()))
